@@ -18,7 +18,7 @@ MANIFEST = {
     'technique': 'runtime monitoring: fault enumeration over (scenario, construction history, entry point) with exception-class oracle',
 }
 LEVEL = 'fault_enumeration'
-BUDGET = {'quick': 30, 'thorough': 300}
+BUDGET = {'quick': 60, 'thorough': 300}
 RULE = ('(host database, scenario, history, entry point); every scenario x history x entry point on every host; distinct by '
         '(host hash, scenario, history, entry); non-trivial = every case (each carries one inconsistency)')
 ASSUMPTIONS = ['CPython trusted']
